@@ -795,8 +795,15 @@ def policy(repo, tier):
     fns.append({"function": f"{DT}::<{n_obs} observer methods>", "lines": [1, 1], "file_sha256": dt.sha256, "segment_sha256": dt.sha256, "obligations": n_obs})
     # ---- frames: the caller's input buffer is only read / repositioned -- in every function it is handed to
     held = {}
-    ib = FR.input_buffer_functions(mods, pkg, held)
-    bases = FR.class_bases(mods)
+    try:
+        ib = FR.input_buffer_functions(mods, pkg, held)
+        bases = FR.class_bases(mods)
+    except Exception as e:  # noqa -- an unexpected shape must never be an engine error: the replayer decides (the floor below fails as unknown)
+        ib, held, bases = {}, {}, {}
+        o = ground_obligation("C06/package/frame#input-buffer-only-read", False, f"input-buffer scan failed on this shape ({type(e).__name__}: {e})"[:200],
+                              "package", definite=False)
+        o["replay_hint"] = {"kind": "frame", "file": DT, "function": ""}
+        obls.append(volatile(o))
     for key in held:
         ib.setdefault(key, set())
     for (rel, q), names in sorted(ib.items()):
